@@ -87,7 +87,7 @@ func (a *Analysis) textPrims(rep *Report) []*textPrim {
 			nOK := 0
 			var okPaths []*Path
 			for _, p := range paths {
-				if pathKind(p) == "ok" {
+				if pathKind(p) == "ok" && !outsideDomain(p) {
 					okPaths = append(okPaths, p)
 				}
 			}
@@ -336,4 +336,57 @@ func anon(f *FieldLayout) string {
 	c := *f
 	c.Name = ""
 	return c.Canon()
+}
+
+// outsideDomain: the path needs a negative width (or count) parameter – the property speaks about widths N >= 0, and
+// every call site passes a non-negative literal (X7).
+func outsideDomain(p *Path) bool { return outsideDomainConds(p.Conds) }
+
+func outsideDomainConds(conds []Cond) bool {
+	for _, c := range conds {
+		v := c.V
+		if v.Op != "binop" || len(v.Args) != 2 {
+			continue
+		}
+		d := affOf(v.Args[0]).Add(affOf(v.Args[1]), -1)
+		if d.Top || len(d.Term) == 0 {
+			continue
+		}
+		var facts []intFact
+		onlyParams := true
+		for k := range d.Term {
+			sym := d.Sym[k]
+			if sym.Op != "param" || sym.Type == nil || !isIntegerType(sym.Type) {
+				onlyParams = false
+			}
+			facts = append(facts, intFact{G: affOf(sym), Lo: i64(0)})
+		}
+		if !onlyParams {
+			continue
+		}
+		lo, hi := boundsOf(d, facts)
+		op := v.Name
+		if !c.Taken {
+			op = map[string]string{"<": ">=", ">=": "<", ">": "<=", "<=": ">"}[op]
+		}
+		switch op {
+		case "<":
+			if lo != nil && *lo >= 0 {
+				return true
+			}
+		case "<=":
+			if lo != nil && *lo >= 1 {
+				return true
+			}
+		case ">":
+			if hi != nil && *hi <= 0 {
+				return true
+			}
+		case ">=":
+			if hi != nil && *hi <= -1 {
+				return true
+			}
+		}
+	}
+	return false
 }
